@@ -36,6 +36,7 @@ type ereg struct {
 	id        []byte
 	exp, blk  int64
 	decrypted bool
+	pred      *predSpec // the predicate of the registered definition (nil: contract only)
 }
 
 type cfgRec struct {
@@ -55,6 +56,7 @@ type book struct {
 	time   map[int]*treg
 	ev     map[string]*ereg
 	fired  map[string]int64
+	bogus  map[string]bool // fired entries the oracle found no matching, unexpired log for
 	cfgs   map[int32]*cfgRec
 	eons   map[int64]*eonRec
 	dkgs   map[int64]*dkgRec
@@ -62,7 +64,7 @@ type book struct {
 }
 
 func newBook(events bool) *book {
-	return &book{events: events, time: map[int]*treg{}, ev: map[string]*ereg{}, fired: map[string]int64{},
+	return &book{events: events, time: map[int]*treg{}, ev: map[string]*ereg{}, fired: map[string]int64{}, bogus: map[string]bool{},
 		cfgs: map[int32]*cfgRec{}, eons: map[int64]*eonRec{}, dkgs: map[int64]*dkgRec{}, labels: map[string]int{}}
 }
 
@@ -251,6 +253,8 @@ func (h *hist) justifyIn(id []byte, trigBlock, n, t uint64, only *int64, checkTr
 			}
 			if _, ok := b.fired[k]; !ok {
 				ps = append(ps, "event-not-fired")
+			} else if b.bogus[k] {
+				ps = append(ps, "event-triggered-without-matching-log")
 			}
 			e, sp, oor := b.setProblems(r.eon)
 			if oor {
@@ -321,9 +325,9 @@ func (h *hist) judge(op opSpec, ob stepObs) {
 		b.labels[hex.EncodeToString(id)] = op.Id
 		k := evKey(op.Eon, id)
 		if r, ok := b.ev[k]; ok {
-			r.exp, r.blk = op.Exp, op.Blk
+			r.exp, r.blk, r.pred = op.Exp, op.Blk, op.Pred
 		} else {
-			b.ev[k] = &ereg{eon: op.Eon, id: id, exp: op.Exp, blk: op.Blk}
+			b.ev[k] = &ereg{eon: op.Eon, id: id, exp: op.Exp, blk: op.Blk, pred: op.Pred}
 		}
 	case "fire":
 		if !ob.Accepted {
@@ -343,17 +347,23 @@ func (h *hist) judge(op opSpec, ob stepObs) {
 			}
 			b.fired[k] = blk
 			reg := b.ev[k]
-			okLog := false
+			okLog, anyLog := false, false
 			for _, l := range op.Logs {
 				if l.Eon == eon && bytes.Equal(idBytes(l.Id), id) && int64(l.Blk) == blk && l.Blk >= op.Start && l.Blk <= op.End {
-					okLog = true
+					anyLog = true
+					if _, _, matches := h.logShape(l); matches { // reference matcher, not eventtrigger.go
+						okLog = true
+					}
 				}
 			}
+			b.bogus[k] = reg == nil || !okLog || blk > reg.exp
 			switch {
 			case reg == nil:
 				h.violate("fired-without-registration", "a trigger fired that was never registered", op, r)
+			case !anyLog:
+				h.violate("fired-without-log", "a trigger fired without a log of its contract in that block of the synced range", op, r)
 			case !okLog:
-				h.violate("fired-without-log", "a trigger fired without a matching log in the synced range", op, r)
+				h.violate("fired-without-matching-log", fmt.Sprintf("trigger (keyper set %d, predicate %+v) fired in block %d although no log of that block matches its definition", eon, *reg.pred, blk), op, r)
 			case blk > reg.exp:
 				h.violate("fired-after-expiry", fmt.Sprintf("trigger (keyper set %d) fired by a log in block %d, later than its expiry block %d", eon, blk, reg.exp), op, r)
 			case reg.decrypted:
@@ -364,14 +374,25 @@ func (h *hist) judge(op opSpec, ob stepObs) {
 			}
 		}
 		for _, l := range op.Logs {
-			if reg := b.ev[evKey(l.Eon, idBytes(l.Id))]; reg != nil && int64(l.Blk) == reg.exp+1 {
+			reg := b.ev[evKey(l.Eon, idBytes(l.Id))]
+			if reg != nil && int64(l.Blk) == reg.exp+1 {
 				h.run.Dist["boundary:log-block=expiry+1"]++
+			}
+			if reg != nil && reg.pred != nil {
+				_, _, m := h.logShape(l)
+				v, _ := hex.DecodeString(l.Val)
+				hi := "low"
+				if len(v) > 8 {
+					hi = "high-bits"
+				}
+				h.run.Dist[fmt.Sprintf("pred-log:%s/%s/%s/matches=%v", reg.pred.Op, reg.pred.Ref, hi, m)]++
 			}
 		}
 	case "unfire":
 		for k, blk := range b.fired {
 			if blk >= op.From {
 				delete(b.fired, k)
+				delete(b.bogus, k)
 			}
 		}
 	case "rbtime":
@@ -385,6 +406,7 @@ func (h *hist) judge(op opSpec, ob stepObs) {
 			if r.blk >= op.From {
 				delete(b.ev, k)
 				delete(b.fired, k)
+				delete(b.bogus, k)
 			}
 		}
 	case "config":
